@@ -23,7 +23,7 @@ func (f *Frame) execInstr(b *ssa.BasicBlock, st *State, in ssa.Instruction) bool
 	case *ssa.UnOp:
 		f.vals[x] = f.unop(b, st, x)
 	case *ssa.Convert:
-		f.vals[x] = f.convert(st, x.X.Type(), x.Type(), f.val(x.X))
+		f.vals[x] = f.convert(b, st, x.X.Type(), x.Type(), f.val(x.X))
 	case *ssa.ChangeType:
 		v := f.val(x.X)
 		v.typ = x.Type()
@@ -504,7 +504,8 @@ func (tr *Translator) strConcat(a, b Sx) Sx {
 	n := c.define("cat", "Str", t)
 	it := c.it
 	la, lb := sx("slen", a), sx("slen", b)
-	c.axiom(n, and(eq(sx("slen", n), it.add(I64, la, lb)),
+	c.axiom(n, eq(sx("slen", n), it.add(I64, la, lb)))
+	c.softAxiom(n, and(eq(sx("slen", n), it.add(I64, la, lb)),
 		fmt.Sprintf("(forall ((k %s)) (! (=> (and %s %s) (= (sat %s k) (ite %s (sat %s k) (sat %s %s)))) :pattern ((sat %s k))))",
 			it.isort(), it.le(I64, it.iconst(0), "k"), it.lt(I64, "k", sx("slen", n)), n, it.lt(I64, "k", la), a, b, it.sub(I64, "k", la), n)))
 	return n
@@ -569,8 +570,38 @@ func (f *Frame) unop(b *ssa.BasicBlock, st *State, x *ssa.UnOp) Val {
 	return Val{t: c.declConst("unop", c.sortOf(x.Type())), typ: x.Type()}
 }
 
-func (f *Frame) convert(st *State, from, to types.Type, v Val) Val {
-	return f.tr.convertT(from, to, v)
+func (f *Frame) convert(b *ssa.BasicBlock, st *State, from, to types.Type, v Val) Val {
+	tr := f.tr
+	c := tr.c
+	it := c.it
+	// string -> []byte : a fresh backing array holding the bytes of the string
+	if sl, ok := to.Underlying().(*types.Slice); ok && isStringType(from) {
+		if k, ok := typeIntKind(sl.Elem()); ok && k.bits == 8 {
+			r := f.freshRef(b, st, to)
+			key := "E:" + shortType(sl.Elem())
+			tr.regKey(key, []Sx{"Int", it.isort()}, c.sortOf(sl.Elem()))
+			na := sx("sbytes", v.t) // the backing array is exactly the byte view of the string
+			cur := tr.memGet(st, key)
+			st.mem[key] = c.define("H_"+key, tr.memSortFull(key), sx("store", cur, r.t, na))
+			f.noteWrite(key, b.Index)
+			n := sx("slen", v.t)
+			return Val{t: c.define("bytes", "Slice", sx("mk_slice", r.t, it.iconst(0), n, n)), typ: to}
+		}
+	}
+	// []byte -> string : a string with the bytes of the slice (at conversion time)
+	if sl, ok := from.Underlying().(*types.Slice); ok && isStringType(to) {
+		if k, ok := typeIntKind(sl.Elem()); ok && k.bits == 8 {
+			key := "E:" + shortType(sl.Elem())
+			tr.regKey(key, []Sx{"Int", it.isort()}, c.sortOf(sl.Elem()))
+			s := c.declConst("str", "Str")
+			arr := sx("select", tr.memGet(st, key), sx("sl_arr", v.t))
+			c.axiom(s, eq(sx("slen", s), sx("sl_len", v.t)))
+			c.softAxiom(s, fmt.Sprintf("(forall ((k %s)) (! (=> (and %s %s) (= (sat %s k) (select %s %s))) :pattern ((sat %s k))))",
+				it.isort(), it.le(I64, it.iconst(0), "k"), it.lt(I64, "k", sx("sl_len", v.t)), s, arr, it.add(I64, sx("sl_off", v.t), "k"), s))
+			return Val{t: s, typ: to}
+		}
+	}
+	return tr.convertT(from, to, v)
 }
 
 func (tr *Translator) convertT(from, to types.Type, v Val) Val {
@@ -709,7 +740,7 @@ func (f *Frame) indexAddr(st *State, x *ssa.IndexAddr) Val {
 	case *types.Slice:
 		f.boundsCheck(st, idx, sx("sl_len", base.t), x)
 		key := "E:" + shortType(u.Elem())
-		off := c.define("off", it.isort(), it.add(I64, sx("sl_off", base.t), idx))
+		off := c.define("off", it.isort(), it.addNW(sx("sl_off", base.t), idx))
 		return Val{addr: &Addr{key: key, idxs: []Sx{sx("sl_arr", base.t), off}, typ: u.Elem(), gl: base.gl}, typ: x.Type()}
 	case *types.Pointer: // pointer to array
 		arr := u.Elem().Underlying().(*types.Array)
@@ -796,7 +827,8 @@ func (tr *Translator) substr(s, lo, hi Sx) Sx {
 	it := c.it
 	c.declFun("ssub", []Sx{"Str", it.isort(), it.isort()}, "Str")
 	n := c.define("sub", "Str", sx("ssub", s, lo, hi))
-	c.axiom(n, and(
+	c.axiom(n, imp(and(it.le(I64, it.iconst(0), lo), it.le(I64, lo, hi), it.le(I64, hi, sx("slen", s))), eq(sx("slen", n), it.sub(I64, hi, lo))))
+	c.softAxiom(n, and(
 		imp(and(it.le(I64, it.iconst(0), lo), it.le(I64, lo, hi), it.le(I64, hi, sx("slen", s))),
 			and(eq(sx("slen", n), it.sub(I64, hi, lo)),
 				fmt.Sprintf("(forall ((k %s)) (! (=> (and %s %s) (= (sat %s k) (sat %s %s))) :pattern ((sat %s k))))",
